@@ -100,7 +100,7 @@ func LoadRepo(repo string, goarch string) (*Program, error) {
 	}
 	fset := token.NewFileSet()
 	cfg := &packages.Config{
-		Mode:  packages.LoadAllSyntax,
+		Mode:  packages.LoadAllSyntax | packages.NeedEmbedFiles | packages.NeedEmbedPatterns,
 		Dir:   repo,
 		Env:   env,
 		Fset:  fset,
